@@ -224,10 +224,6 @@ def step (ds : DS) (fs : List String) (impl : String) : DS × String × String :
       match stepRes with
       | none => (ds, "bad-op", "-")
       | some (st', res, evs, dl, item) =>
-        if op = "new" ∧ st'.maxBuf < 0 then
-          -- bufferForRetryLocked(0, op, nil) commits and calls the nil cleanup: the real code panics
-          ({ ds with blocked := true }, (if impl.startsWith "PANIC" then impl else "PANIC"), if impl.startsWith "PANIC" then "VIOL NewStream panics (nil cleanup) when MaxRetryRPCBufferSize is negative" else "-")
-        else
         let (lo, hi) := delayBounds c.st.pol dl
         let it := (getKV ifs "t").toInt?
         let tOK : Bool := match it with | some t => decide (lo ≤ t) && decide ((t : Rat) ≤ hi) | none => false
